@@ -142,15 +142,28 @@ Definition bytes_ok (l : list N) : bool := forallb (fun x => x <? 256) l.
 Definition op_ok (k : skind) (o : op13) : bool :=
   op_allowed k o && bytes_ok (op_buf o) && match o with OSetPos p => p <? W64 | _ => true end.
 
+(* Guards against absurd token values BEFORE anything converts them to unary nat (N.to_nat inside
+   ntake / ndrop / repeat): the shrinker and the neighbourhood search of lib/runner.py perturb case
+   tokens freely (e.g. 2^64-1).  A slice starts inside its array; file offsets stay small. *)
+Definition pos_sane (k : skind) (len p : N) : bool :=
+  match k with KSliceR | KSliceW => p <=? len | KFile => p <=? 65536 | _ => true end.
+Definition op_sane (k : skind) (o : op13) : bool :=
+  match o, k with OSetPos p, KFile => p <=? 65536 | _, _ => true end.
+Definition obs_sane (k : skind) (ob : opobs) : bool := pos_sane k (nlen (a_data ob)) (a_pos ob).
+
 Definition suite_C13 (inp obs : list tok) : verdict :=
   match inp with
   | TN md :: TN kd :: TL content :: TN pos :: opl =>
       match kind_of kd, parse_ops opl, parse_obs obs with
       | Some k, Some ops, Some o =>
-          if bytes_ok content && (pos <? W64) && forallb (op_ok k) ops then
+          if bytes_ok content && (pos <? W64) && forallb (op_ok k) ops
+             && pos_sane k (nlen content) pos && forallb (op_sane k) ops then
             let c := {| c_mode := if md =? 0 then Debug else Release; c_kind := k;
                         c_init := {| s_data := content; s_pos := pos; s_out := [] |}; c_ops := ops |} in
-            {| v_model := enc13 (run_C13 c); v_ok := ok_C13 c o; v_wellformed := true |}
+            (* an observed slice offset outside its array / an absurd file offset is a failure as such *)
+            {| v_model := enc13 (run_C13 c);
+               v_ok := if forallb (obs_sane k) o then ok_C13 c o else false;
+               v_wellformed := true |}
           else malformed
       | _, _, _ => malformed
       end
